@@ -193,6 +193,24 @@ func StrategyByName(name string) (Strategy, error) {
 			}
 			return en[0]
 		}, nil
+	case "devdup":
+		// messages sent by party <arg> are delivered as soon as they exist and twice in a row (the second copy is
+		// what a fault case may alter: a deviating sender that replaces a message the recipient already holds)
+		return func(s *Session, en []Step, _ *rand.Rand) Step {
+			if st, ok := firstStart(en); ok {
+				return st
+			}
+			ds := deliveries(en)
+			for _, d := range ds {
+				if it := s.item(d.Item); it.From.G == arg {
+					if it.Count == 0 {
+						d.Op = "dup"
+					}
+					return d
+				}
+			}
+			return ds[0]
+		}, nil
 	case "devlast":
 		// messages sent by party <arg> are delivered only when nothing else can happen (a "rushing" deviator
 		// that has seen everybody else's message of the round before its own is delivered)
